@@ -100,7 +100,7 @@ def gen_plan(rng, index, tier):
     shy = {}
     if thr > 0 and not fast:
         for a in range(1, K):
-            if arrive[a] > 0 and F - arrive[a] >= 3 and rng.random() < 0.4:
+            if arrive[a] > 0 and F - arrive[a] >= 3 and rng.random() < 0.6:
                 m = rng.randint(1, min(10, F - arrive[a] - 2))
                 conf[a] = arrive[a] + m
                 shy[a] = (arrive[a], conf[a])
@@ -134,7 +134,7 @@ def gen_plan(rng, index, tier):
         fired["late_arrival"] = sum(1 for a in range(K) if arrive[a] > 0)
     # wander: every animal walks its own way, a few pixels per frame but arbitrarily far over the clip (further than the
     # distance to its neighbours), never coming within D_min of where any OTHER animal is or has been (local queues never forget)
-    wander = (not fast) and (not flat) and rng.random() < 0.3
+    wander = (not fast) and (not flat) and rng.random() < (0.7 if shy else 0.3)  # a stale window only shows once the animals have walked away from it
     path = None
     if wander:
         fired["wander"] = 1
